@@ -206,6 +206,17 @@ func c12Enforce(c *ctx) {
 					}
 					xff = append(xff, strings.Join(parts, choose(r, []string{", ", ","})))
 				}
+				if r.Intn(10) == 0 {
+					// a long chain of hops: every element counts, wherever it stands
+					nh := choose(r, []int{31, 32, 33, 40, 64, 120})
+					parts := make([]string, nh)
+					pad := choose(r, []string{"127.0.0.1", "127.9.8.7", "127.0.0.2"})
+					for k := range parts {
+						parts[k] = pad
+					}
+					parts[choose(r, []int{nh - 1, nh - 2, 0, r.Intn(nh)})] = choose(r, []string{"127.0.0.1", "127.9.8.7", "127.0.0.3", "10.0.0.1", "::1", "127.9.200.1"})
+					xff = append(xff, strings.Join(parts, ", "))
+				}
 				cred := choose(r, []string{"", "", "alice:s3cret", "bob:plainpw", "alice:wrong", "eve:s3cret", "malformed"})
 				id := fmt.Sprintf("acl-%d", seq.Add(1))
 				var b strings.Builder
@@ -273,6 +284,7 @@ func c12Enforce(c *ctx) {
 		}(g)
 	}
 	wg.Wait()
+	c12NoSchemes(c, up)
 	c.R.SetCounter("tcp_upstream_connections", echoConns.Load())
 	c.R.SetCounter("tcp_admitted_connections", admittedTCP.Load())
 	// conservation: every upstream connection belongs to an admitted client connection
@@ -287,4 +299,48 @@ func itemTexts(items []c12Item) []string {
 		out = append(out, it.Text)
 	}
 	return out
+}
+
+// c12NoSchemes: a second fabio without any -proxy.auth: a route that names a scheme names an unknown one there and
+// must reject everything.
+func c12NoSchemes(c *ctx, up *rawhttp.Upstream) {
+	addr := fmt.Sprintf("127.0.0.1:%d", freePort())
+	rg, err := newRig(c, "noauth", []string{"-proxy.addr", addr, "-log.level", "WARN"})
+	if err != nil {
+		c.R.Inconcl("cannot start the second fabio: %v", err)
+		return
+	}
+	defer rg.close()
+	rg.setManual(fmt.Sprintf("route add guarded guarded.test/ http://%s/ opts \"auth=basic1\"\nroute add free free.test/ http://%s/", up.Addr(), up.Addr()))
+	if err := rg.barrier(); err != nil {
+		c.R.Inconcl("barrier: %v", err)
+		return
+	}
+	if !fabioproc.WaitListening(addr, 20*time.Second) {
+		c.R.Inconcl("listener %s did not come up", addr)
+		return
+	}
+	for i, cred := range []string{"", "alice:s3cret", "bob:plainpw", "x:y", "", "alice:s3cret"} {
+		for _, host := range []string{"guarded.test", "free.test"} {
+			id := fmt.Sprintf("noauth-%d-%s", i, host)
+			raw := fmt.Sprintf("GET /x HTTP/1.1\r\nHost: %s\r\nX-Verif-Id: %s\r\nConnection: close\r\n", host, id)
+			if cred != "" {
+				raw += "Authorization: Basic " + base64.StdEncoding.EncodeToString([]byte(cred)) + "\r\n"
+			}
+			up.SetScript(id, &rawhttp.Script{Status: 200, Framing: "length", Body: []byte("served " + id)})
+			resp := rawhttp.Do(rawhttp.Dial{Addr: addr, Timeout: 20 * time.Second}, []byte(raw+"\r\n"), "GET")
+			contacted := up.Take(id) != nil
+			c.R.Eval(1)
+			c.R.Nontrivial("noauth|" + host + "|" + cred)
+			vin := map[string]any{"route": host, "credentials": cred, "instance": "no -proxy.auth"}
+			switch {
+			case resp.Err != nil:
+				c.R.Violate("c12e:request-failed", fmt.Sprintf("%v: %v", vin, resp.Err), vin)
+			case host == "guarded.test" && (resp.Status != 401 || contacted):
+				c.R.Violate("c12e:unauthenticated-request-served:no-schemes-configured", fmt.Sprintf("fabio without any auth scheme, route with auth=basic1, credentials %q: status %d, upstream contacted=%v; want 401 and no contact", cred, resp.Status, contacted), vin)
+			case host == "free.test" && (resp.Status != 200 || !contacted):
+				c.R.Violate("c12e:admitted-request-refused", fmt.Sprintf("fabio without any auth scheme, route without auth: status %d", resp.Status), vin)
+			}
+		}
+	}
 }
